@@ -22,23 +22,23 @@ CLAIMED = {
          "As C01. The IRR-side failure modes (unknown as-set, error responses, unreachable) are exercised by the engine-B part when present."),
  "C04": ("fault_enumeration", "DESIGN.md section 3 C04",
          "fault enumeration inside property-based testing (proptest): every position of the agent's request sequence x every fault kind for N = 0..5 loads is enumerated against a recording fake Junos; policy contents are generated; oracle = invariant over the RPC names received and the run's result",
-         "The agent's real Updater::run (real session over an in-memory transport, real evaluator against a fake IRRd, pipelined loads) runs against a fake Junos that injects one fault (rpc-error, truncated reply, wrong root, not XML, unknown message-id, close before / after the reply) at one request index; positions x kinds are enumerated completely for each N, load replies are withheld until the last load was received. Invariant: commit only after a positively acknowledged open and only if every earlier load reply was positive, never after a failed step; the run reports failure iff a step failed; success only with positive commit, close-configuration and close-session; nothing reaches the live database without a commit.",
+         "The agent's real Updater::run (real session over an in-memory transport, real evaluator against a fake IRRd, pipelined loads) runs against a fake Junos that injects one fault (rpc-error, truncated reply, wrong root, not XML, unknown message-id, close before / after the reply, a well-formed reply that acknowledges nothing, and for loads the Junos results shapes: error with count, error then <ok/> or <ok></ok>, warning-error-warning-ok, empty results, warning without ok, plus a generated family of results shapes that are never a positive acknowledgement) at one request index; the unmodified agent binary over TLS runs the same enumeration for N = 2; positions x kinds are enumerated completely for each N, load replies are withheld until the last load was received. Invariant: commit only after a positively acknowledged open and only if every earlier load reply was positive, never after a failed step; the run reports failure iff a step failed; success only with positive commit, close-configuration and close-session; nothing reaches the live database without a commit.",
          "The fake Junos' reply shapes and open/load/commit semantics are modelled. A 15 s watchdog (all peers in-process) classifies a run that never completes."),
  "C05": ("exploration", "DESIGN.md section 3 C05",
          PBT + ": generated schedules on a harness-owned single-threaded executor (schedule = generated value; wakers honoured; quiescence = deterministic deadlock verdict); oracle = tag echo per message-id, id freshness, all resolved at quiescence",
-         "The real Session over an in-memory transport is driven by an executor whose every step (poll a woken task, release the next reply in a generated permutation, inject a stray reply, let one gated send through) is chosen by a generated schedule; reply futures live in separate tasks, joined groups or sequential groups. Checks fresh message-ids, that each caller gets the reply tagged for its id, nobody waits forever, strays are never delivered, and a further request still works.",
+         "The real Session over an in-memory transport is driven by an executor whose every step (poll a woken task, release the next reply in a generated permutation, inject a stray reply, let one gated send through) is chosen by a generated schedule; in a quarter of the worlds one or two sends report an I/O error, either without delivering anything or after the whole request reached the server; reply futures live in separate tasks, joined groups or sequential groups. Checks fresh message-ids, that each caller gets the reply tagged for its id, nobody waits forever, strays are never delivered, and a further request still works.",
          "Single OS thread: all poll-level interleavings reachable, races inside tokio::sync::Mutex itself are not. Requests are issued by one task (rpc takes &mut self)."),
  "C06": ("exploration", "DESIGN.md section 3 C06",
          PBT + ": generated chunk plans executed by scripted peers on the three REAL transports over loopback (tokio-rustls server, russh server with exact channel-data packets, child process for the local CLI); oracles = delivered payloads vs sent payloads, and promptness judged against the instant the peer itself sent further traffic",
-         "Sessions over real TLS, SSH and local-CLI transports; the peer writes the hello and the concatenated replies of 1..4 pipelined requests per round in units cut at generated positions, with forced cuts at every offset inside ]]>]]>, several messages per unit and delimiter look-alikes in payloads. Every caller must get exactly its payload, before the peer had to send further traffic (the peer nudges only after 1.5 s without client progress and records it). All five in-delimiter offsets on every transport are fixed cases. Failures must reproduce on an immediate second run.",
+         "Sessions over real TLS, SSH and local-CLI transports; the peer writes the hello and the concatenated replies of 1..4 pipelined requests per round in units cut at generated positions, with forced cuts at every offset inside ]]>]]>, several messages per unit, delimiter look-alikes in payloads, 0..20000 padding bytes and message ends aligned to power-of-two offsets of the byte stream (where receive buffers run full). The evidence counts the sessions in which the client's own reads (from its TRACE records) really ended inside a delimiter. Every caller must get exactly its payload, before the peer had to send further traffic (the peer nudges only after 1.5 s without client progress and records it). All five in-delimiter offsets on every transport are fixed cases. Failures must reproduce on an immediate second run.",
          "TLS and pipe read boundaries can only be encouraged, not forced (SSH packets are exact). Real time is involved; a timeout alone is never a verdict, the peer's own nudge mark is."),
  "C07": ("fault_enumeration", "DESIGN.md section 3 C07",
          "fault enumeration inside property-based testing (proptest): transport x close point x manner x outstanding requests enumerated completely on the three real transports over loopback, cut positions generated; oracle = every operation completes within the bound, CPU accounting separates waiting from spinning",
-         "Scripted peers (tokio-rustls server, russh server, child process) close the connection at every point of a session's life (after accept, during the handshake, before / inside the hello, idle, after the requests, inside a reply, after the first of several replies), cleanly or abruptly, with 0/1/3 requests outstanding. Establishment, every pending reply and one subsequent request must complete with an error (or the value actually sent) within 10 s and the process must not burn CPU. The client runs on a watched thread so that a loop that never yields is itself observed. The three confirmed defects (TLS / local EOF busy loop, SSH pump spin) were repaired; their cases are regression inputs.",
+         "Scripted peers (tokio-rustls server, russh server, child process) close the connection at every point of a session's life (after accept, during the handshake, before / inside the hello, idle, after the requests, inside a reply, after the first of several replies), cleanly (close_notify+FIN / channel EOF+close / child exit), with end of stream only (close_notify with TCP left open / channel EOF without close / child closes stdout and lives on) or abruptly, with 0/1/3 requests outstanding; the unmodified agent binary must exit non-zero when the server closes at each request position. Establishment, every pending reply and one subsequent request must complete with an error (or the value actually sent) within 10 s and the process must not burn CPU. The client runs on a watched thread so that a loop that never yields is itself observed. The three confirmed defects (TLS / local EOF busy loop, SSH pump spin) were repaired; their cases are regression inputs.",
          "Wall clock: the bound is the property's own observable (10^4 margin on loopback); a miss must reproduce on an immediate re-run. CPU time is process-wide, cases run sequentially."),
  "C08": ("exploration", "DESIGN.md section 3 C08",
          PBT + ": grammar-generated rpc-reply documents for every operation over an in-memory session; bounded-exhaustive enumeration of all child sequences of length <= 3; oracle = document content vs result",
-         "Generated-input search over the reply grammar of every operation (EmptyReply, DataReply, BareReply, load-configuration results): any number/order/severity of rpc-error combined with any positive indication at every grammar position. All child sequences up to length 3 are enumerated completely, longer ones sampled. Establishes the property for the enumerated sub-space and gives high confidence beyond it; not a proof.",
+         "Generated-input search over the reply grammar of every operation (EmptyReply, DataReply, BareReply, load-configuration results): any number/order/severity of rpc-error combined with any positive indication at every grammar position. All child sequences up to length 3 are enumerated completely (those mixing an error and an ok also with <ok></ok>), longer ones sampled; half of the sampled documents are rendered in a generated serialisation style (prefix, whitespace, comments, quotes, XML declaration, both empty-element forms). Success without any positive indication is a failure as well. Establishes the property for the enumerated sub-space and gives high confidence beyond it; not a proof.",
          "Trusts the harness's XML renderer (cross-checked by its own strict parser) and the Debug rendering of rpc::Error as comparison medium. Values contain no XML metacharacters (C13's subject)."),
  "C09": ("exploration", "DESIGN.md section 3 C09",
          PBT + ": (capability set, request) pairs; oracle = table transcribed from RFC 6241 section 8 / ietf-netconf.yang if-feature statements, evaluated on the bytes on the wire and on the caller's request",
@@ -46,47 +46,47 @@ CLAIMED = {
          "The RFC table is transcribed by hand. Default-valued explicit parameters are accepted either way; semantically invalid requests are judged in the wire direction only."),
  "C10": ("exploration", "DESIGN.md section 3 C10",
          PBT + ": adversarial parameter values for every operation; oracle = the harness's own strict XML 1.0 parser + value recovery at the protocol-defined location + delimiter count",
-         "Every text parameter of every operation (tokens, log messages, instance names, XPath, URLs, text/JSON/set configuration) is generated from XML metacharacters, quotes, the delimiter and its prefixes, CDATA/comment openers, entity look-alikes, non-ASCII, empty, up to 4 KiB; fragments are generated well-formed trees. The captured bytes must be one well-formed document plus exactly one delimiter and every value must be recovered unchanged. Every request the fake Junos receives in other checks is parsed by the same strict parser.",
+         "Every text parameter of every operation (tokens, log messages, instance names, XPath, URLs, text/JSON/set configuration) is generated from XML metacharacters, quotes, the delimiter and its prefixes, CDATA/comment openers, entity look-alikes, non-ASCII, empty, up to 4 KiB; fragments are generated well-formed trees. The captured bytes must be one well-formed document plus exactly one delimiter and every value must be recovered unchanged. Every request the fake Junos receives in other checks is parsed by the same strict parser, and every document that parser judged in a run is re-parsed by expat (tools/expat_check.py; a disagreement makes the run inconclusive); the part oracle-self-check feeds it damaged documents for that purpose only.",
          "Well-formed, not namespace-valid. Values are XML Chars without CR (attribute values also without TAB/LF)."),
  "C11": ("exploration", "DESIGN.md section 3 C11",
          PBT + ": generated IRR databases served by a fake IRRd over loopback TCP and generated filter expressions; oracle = denotational RPSL evaluator written for the harness, compared exactly by one representative prefix per class of the partition induced by all prefixes and lengths involved",
-         "The real RpslEvaluator (public API) evaluates generated expressions (AND/OR/NOT, literals, every range operator on every atom kind, as-sets with nesting/cycles/unknown members, route-sets, filter-sets) against a generated database served with protocol variants (empty as C or D, segmented responses). The result is compared for exact set equality with an independent evaluator; the query log must show both address families for every expanded AS. One known finding (route-set members with range operators dropped) is attributed exactly by re-running the oracle without those members.",
+         "The real RpslEvaluator (public API) evaluates generated expressions (AND/OR/NOT, literals, every range operator on every atom kind, as-sets with nesting/cycles/unknown members, route-sets, filter-sets) against a generated database served with protocol variants (empty as C or D, segmented responses). The result is compared for exact set equality with an independent evaluator (library), with what the unmodified bgpfu command prints, and with what the real agent installs when one to three policies (incl. an unknown as-set) are evaluated in one run; the query log must show both address families for every expanded AS. One known finding (route-set members with range operators dropped) is attributed exactly by re-running the oracle without those members.",
          "IRR behaviour inside the IRRd protocol. NOT is generated over literal sets of short prefixes only (the prefix-set dependency needs time exponential in the prefix length for a complement). The rpsl and generic-ip crates are dependencies, their parser is used to hand expressions to the library."),
  "C12": ("exploration", "DESIGN.md section 3 C12",
          PBT + ": generated server hellos x both orders of the hello exchange; oracle = the establishment predicate evaluated against the capabilities the client itself put on the wire",
-         "Hello matrix over base versions, capability subsets, unknown URIs, session-id forms (valid, 2^32-1, leading zeros, 0, 2^32, negative, empty, non-numeric, missing, duplicated), capabilities element once/missing/twice, child order, prefix/default namespace, malformed documents, and both orders of the exchange (send gate). Established iff the property's predicate; version, session-id and capability set compared. One known finding listed.",
-         "The framing half (real TLS transport against a conforming chunked-framing server) is part of the transport engine."),
+         "Hello matrix over base versions, capability subsets, unknown URIs, session-id forms (valid, 2^32-1, leading zeros, 0, 2^32, negative, empty, non-numeric, missing, duplicated), capabilities element once/missing/twice, child order, prefix/default namespace, malformed documents (truncated, wrong root, wrong namespace, not XML, unclosed tag, content before the root or after it: element / text / end tag / second hello / rpc-reply), and both orders of the exchange (send gate). Established iff the property's predicate; version, session-id and capability set compared. One known finding listed.",
+         "Part framing: real TLS transport against a conforming RFC 6242 server that switches to chunked framing iff both hellos carry :base:1.1."),
  "C13": ("exploration", "DESIGN.md section 3 C13",
          PBT + ": metamorphic - one abstract message tree rendered in two generated styles must give the same outcome; failures are attributed to single rewrites and single elements by re-rendering the canonical style with exactly one rewrite",
          "Hello, every rpc-reply type and the Junos configuration grammars, each rendered in two styles composed of: prefix vs default namespace, inter-element whitespace, whitespace around token text, comments inside and around the root, attribute order, quote character, XML declaration, both empty-element forms, whitespace before the delimiter. Outcome = Ok(Debug of value) / RpcError(list) / error class. Known findings (container elements written as empty-element tags) are listed with signature reader:rewrite:element.",
          "Comments only between elements; whitespace only around token-valued text; errors compared as a class."),
  "C14": ("exploration", "DESIGN.md section 3 C14",
          PBT + " and coverage-guided fuzzing (cargo-fuzz/libFuzzer targets over the same entry function): mutated valid messages and raw bytes; oracle = call returns, no panic/overflow, no unresolved future, other request's reply still delivered",
-         "Valid hellos/replies from the grammars damaged by generated mutation sequences (truncate, delete, flip, insert markup, duplicate element, absurd numbers, invalid UTF-8, 11000-deep nesting, splice, wrong namespace, missing/doubled delimiter) or replaced by raw bytes, fed through a real session with a second outstanding request whose valid reply arrives afterwards. Builds keep debug assertions and overflow checks.",
-         "Bytes are handed over as one framed message (framing is C06). Non-termination inside one call is caught by the watchdog / libFuzzer -timeout and reported as inconclusive until reproduced."),
+         "Valid hellos/replies (and, for the agent's readers, Junos configurations) from the grammars damaged by generated mutation sequences (truncate, delete, flip, insert markup, duplicate element, absurd numbers, invalid UTF-8, 11000-deep nesting, splice, wrong namespace, missing/doubled delimiter, structure-preserving edits of one text node or attribute value, re-addressing to the other request's message-id) or replaced by raw bytes, fed through a real session with a second outstanding request whose valid reply arrives afterwards or had arrived (and been parked) before. Part libfuzzer: three cargo-fuzz targets over the same entry functions; the quick tier replays the committed seed corpus in-process, the thorough tier runs a campaign per target on all cores (VERIF_FUZZ_SECONDS each, default 300) and re-verifies every artifact in-process. Builds keep debug assertions and overflow checks.",
+         "Bytes are handed over as one framed message (framing is C06). A call that does not return within 60 s is reported as a violation with the input as replay (per-case watchdog; libFuzzer -timeout artifacts are re-run under it). libFuzzer campaigns are only approximately reproducible from -seed; the saved input is the reproducible unit."),
  "C15": ("exploration", "DESIGN.md section 3 C15",
          PBT + ": generated sets of managed policies containing unevaluable members, run through the agent's real Updater::run with the real evaluator; oracle = run succeeds, commit received, every evaluable policy installed with exactly its RPSL set",
          "2..7 policies with at least one valid-but-unevaluable expression (unknown as-set, IRR E/F, unknown route-/filter-set, PeerAS, AS-path regexp, attribute match, set AND regexp) at generated positions; every unevaluable kind alone at every position is enumerated first. The confirmed defects (PeerAS unimplemented!(), dependency todo!() unwinding the task that evaluates all policies) were repaired and are regression inputs.",
          "Nothing is asserted about the unevaluable policy itself (C03). Unknown route-/filter-sets evaluate to the empty set by the library's documented design."),
  "C16": ("exploration", "DESIGN.md section 3 C16",
          PBT + ": generated running configurations rendered raw (attribute order, duplicated xmlns:jcmd, jcmd prefix, comment decoration, body shape under generator control); oracle = independent selection written from the property text, expressions compared by AST",
-         "0..8 generated policy statements per configuration through the agent's real session and candidate reader; the selected (name, expression) pairs must equal an independent selection (active, annotated with a parseable expression, body exactly a default reject); duplicate selected names must be rejected.",
+         "0..8 generated policy statements per configuration through the agent's real session and candidate reader; the selected (name, expression) pairs must equal an independent selection (active, annotated with a parseable expression, body exactly a default reject - other bodies include terms, other actions, a from clause and a further element of five shapes inside <then> or at statement level, before or after the reject); duplicate selected names must be rejected.",
          "'Inactive' = jcmd:active=\"false\"; decorations are the /* */ family; expressions compared through the rpsl parser (a dependency, not code under test)."),
  "C17": ("exploration", "DESIGN.md section 3 C17",
          PBT + ": metamorphic - a generated sequence of expressions on one evaluator vs each expression on a fresh evaluator, against a fake IRRd with injected D/E/F answers",
-         "Sequences of 2..7 expressions evaluated on one RpslEvaluator/connection against a database in which generated keys always answer with an error and filter-sets are served from two sources (early stop of the resolver); each result must equal the result on a fresh connection (both fail, or equal range sets), so responses are never attributed to the wrong query and the evaluator stays usable after failures.",
-         "Results are functions of (database, expression) because error answers are keyed, not positional."),
+         "Sequences of 2..7 expressions evaluated on one RpslEvaluator/connection against a database in which generated keys always answer with an error, further errors are injected for one query of one member of the sequence (the fake IRRd's epoch is advanced before each member and is the same for the fresh evaluator), and filter-sets are served from two sources (early stop of the resolver); each result must equal the result on a fresh connection (both fail, or equal range sets), so responses are never attributed to the wrong query and the evaluator stays usable after failures.",
+         "Results are functions of (database, epoch, expression): error answers are keyed by query and by member of the sequence, never by position on the connection."),
  "C18": ("exploration", "DESIGN.md section 3 C18",
          PBT + ": C05's schedule-owning executor plus drop actions at generated suspension points; oracle = survivors resolve with their own tag at quiescence and a further request completes",
-         "C05's worlds with 1..2 drops of a waiter task (never polled / polled / polled while a send is pending and the request map is locked). Every surviving request must still resolve with its own reply and the session must stay usable. The confirmed defect (reply lost when the reader is dropped at the request-map lock) was repaired; its minimal schedule is a regression input.",
-         "As C05."),
+         "C05's worlds with 1..2 drops of a waiter task (never polled / polled / polled while a send is pending and the request map is locked). Every surviving request must still resolve with its own reply and the session must stay usable. The confirmed defect (reply lost when the reader is dropped at the request-map lock) was repaired; its minimal schedule is a regression input. Part real-transports: on TLS, SSH and the local CLI the future that is reading from the transport is dropped between two parts of a reply (timer-chosen, position measured from the peer's time marks); the other requests and a further one must complete with their own replies.",
+         "As C05. In the real-transport part the moment of the drop is chosen by a timer; a failure must reproduce on an immediate re-run."),
  "C19": ("exploration", "DESIGN.md section 3 C19",
          PBT + ": generated histories (period, run outcomes and durations, SIGHUP / SIGTERM / SIGINT instants) against the agent's real daemon loop on a paused-time (virtual clock) tokio runtime with real Unix signals; oracle = reference timing model over the time line of run starts",
          "The real Loop::start runs under tokio's virtual time; each run is a scripted outcome installed through a hook, signals are raised with libc::raise inside waiting intervals. The observed time line of run starts and the loop's exit are compared with a reference model: first run immediately, period after a success, 60 s after the first failure, non-decreasing and strictly growing retry delays up to max(60 s, period), reset by success, SIGHUP runs at once, SIGTERM/SIGINT exit cleanly. The confirmed defect (period < 60 s shrinks the delay) was repaired.",
          "Run bodies are scripted (the real job needs block_in_place, impossible on a paused current-thread runtime); signals only while waiting; virtual time tolerance 2 ms."),
  "C20": ("exploration", "DESIGN.md section 3 C20",
          PBT + ": generated secrets, outcomes and filter directives on real loopback connection attempts under a capturing tracing subscriber (log bridge installed), plus the unmodified agent binary's stderr at generated verbosity; oracle = substring search for the secret and its trivial encodings with a positive control",
-         "SSH passwords (generated, >= 8 chars with quotes / whitespace / non-ASCII / format look-alikes) and five TLS client keys are handed to real Session::ssh / Session::tls attempts (success, wrong password, untrusted certificate, name mismatch, refused, peer closes in the hello) at seven filter directives up to TRACE, and to the agent binary at -v..-vvvv / RUST_LOG. The captured text must not contain the secret in clear, escape_debug/escape_default, hex, base64 (any alignment), decimal or hex byte lists; for keys the whole DER, the PEM lines and every secret component (RSA d,p,q,dP,dQ,qInv; EC scalar; Ed25519 seed) whole and in 16-byte windows. The user name / key path must be found by the same search (positive control).",
+         "SSH passwords (generated, >= 8 chars with quotes / whitespace / non-ASCII / format look-alikes) and five TLS client keys are handed to real Session::ssh / Session::tls attempts (success, wrong password, untrusted certificate, name mismatch, refused, peer closes in the hello) at seven filter directives up to TRACE, and to the agent binary at -v..-vvvv / RUST_LOG with eight layouts of the certificate / key files (apart, key+certificate, certificate+key bundle, line breaks as spaces, CR line ends, missing END line, leading text). The captured text must not contain the secret in clear, escape_debug/escape_default, hex, base64 (any alignment), decimal or hex byte lists; for keys the whole DER, the PEM lines and every secret component (RSA d,p,q,dP,dQ,qInv; EC scalar; Ed25519 seed) whole and in 16-byte windows. The user name / key path must be found by the same search (positive control).",
          "Only records whose target is one of the repository's crates are judged; dependency records (e.g. russh DEBUG packet dumps, which do contain the password as a byte list) are counted in the evidence but are not text this code base emits. Absence of the searched encodings, not of every transformation."),
 }
 
